@@ -84,6 +84,9 @@ class C20:
         per = 700 if tier == "quick" else 12000
         out = [dict(kind="seq", layer=("main" if i % 2 == 0 else "worker"), index=i, n=per, steps=25, timeout=420 if tier == "quick" else 3000) for i in range(n - 4)]
         out += [dict(kind="conc", index=50 + i, n=(120 if tier == "quick" else 2500), timeout=420 if tier == "quick" else 3000) for i in range(4)]
+        # real layer: an interactive session on a fresh pseudo terminal runs real background / suspended pipelines through
+        # the Execer (registration by _run_command_pipeline, purge by Popen.poll(), Ctrl-Z typed into the terminal)
+        out += [dict(kind="real", index=80 + i, n=(10 if tier == "quick" else 80), steps=14, timeout=420 if tier == "quick" else 3000) for i in range(3 if tier == "quick" else 6)]
         return out
 
     def floors(self, c, tier):
@@ -98,6 +101,12 @@ class C20:
             r.append("concurrent layer saw too few injected delays")
         if c.get("error_returns", 0) < 500:
             r.append("error paths of fg/bg/disown not exercised")
+        if c.get("real_steps", 0) < 100 or c.get("real_background_jobs_started", 0) < 20:
+            r.append("real-process layer: too few steps / background jobs")
+        if c.get("real_jobs_suspended_by_ctrl_z", 0) < 3:
+            r.append("real-process layer: no job was suspended with Ctrl-Z")
+        if c.get("real_jobs_purged_after_kill", 0) < 6:
+            r.append("real-process layer: no finished job was seen disappearing")
         return r
 
     # ------------------------------------------------------------------
@@ -162,6 +171,8 @@ class C20:
             self._setup()
         if case.get("kind") == "conc":
             return self.run_conc(case, rec)
+        if case.get("kind") == "real":
+            return self.run_real_in_pty([case], rec, 300) if not getattr(self, "in_pty", False) else self.run_real(case, rec)
         J = self.J
         self.reset()
         layer = case["layer"]
@@ -441,7 +452,323 @@ class C20:
         elif len(live - present) > len(disowned):
             rec.violation("RACE/live-job-lost-from-table", case, detail)
 
+    # ------------------------------------------------------------------ real-process layer (pty)
+    def run_real_in_pty(self, cases, rec, timeout):
+        from vlib import ptyrun
+
+        side = rec.out_path + ".pty"
+
+        def child(master_fd):
+            self.in_pty, self.master_fd = True, master_fd
+            crec = harness.Rec(side, rec.shard)
+            try:
+                self._setup_real()
+                for i, case in enumerate(cases):
+                    if i < 2:
+                        crec.sample(case, "real")
+                    crec.begin(case)
+                    self.run_real(case, crec)
+            finally:
+                crec.finish()
+
+        status, out = ptyrun.run_in_pty(child, timeout=timeout, errfile=side + ".err")
+        merged = rec.merge_file(side)
+        if status != "exit:0" or not merged:
+            err = ""
+            try:
+                with open(side + ".err") as f:
+                    err = f.read()[-600:]
+            except OSError:
+                pass
+            rec.inconclusive(f"pty session child ended with {status}; terminal tail {out[-300:]!r}; {err}")
+
+    def _setup_real(self):
+        from vlib.session import make_sandbox_path, make_session
+
+        scratch = os.environ["VERIF_SCRATCH"]
+        sb = make_sandbox_path(scratch)
+        work = os.path.join(scratch, f"c20-{os.getpid()}")
+        os.makedirs(work, exist_ok=True)
+        os.chdir(work)
+        self.XSH, self.ex, self.ctx = make_session([sb], env={"PWD": work, "XONSH_INTERACTIVE": True, "THREAD_SUBPROCS": True, "XONSH_SUBPROC_RAISE_ERROR": False})
+        import xonsh.procs.jobs as J
+
+        self.J = J
+        J.ignore_sigtstp()
+
+    @staticmethod
+    def _pstate(pid):
+        try:
+            with open(f"/proc/{pid}/stat") as f:
+                return f.read().rsplit(")", 1)[1].split()[0]
+        except OSError:
+            return None
+
+    def run_real(self, case, rec):
+        import signal
+        import time
+
+        J = self.J
+        # fresh table; whatever an earlier history left is killed
+        for j in list(J.get_jobs().values()):
+            for pid in j.get("pids") or []:
+                try:
+                    os.kill(pid, signal.SIGKILL)
+                except (OSError, TypeError):
+                    pass
+        time.sleep(0.05)
+        J._clear_dead_jobs()
+        J.get_jobs().clear()
+        J.get_tasks().clear()
+        m = {}  # num -> {"pids", "dead", "bg", "stopped"}
+        mru = []
+        strays = []
+        trace = []
+
+        def purge():
+            for n in [n for n in mru if m[n]["dead"]]:
+                mru.remove(n)
+                del m[n]
+                rec.count("real_jobs_purged_after_kill")
+
+        def free():
+            i = 1
+            while i in m:
+                i += 1
+            return i
+
+        def run(src, ctrl_z=False):
+            timer = None
+            if ctrl_z:
+                def type_ctrl_z():
+                    # logical trigger, not a wall-clock guess: type ^Z once the job owns the terminal (then the tty sends it SIGTSTP)
+                    end = time.time() + 15
+                    while time.time() < end:
+                        try:
+                            if os.tcgetpgrp(2) != os.getpgrp():
+                                break
+                        except OSError:
+                            pass
+                        time.sleep(0.01)
+                    time.sleep(0.15)
+                    os.write(self.master_fd, b"\x1a")
+
+                timer = threading.Thread(target=type_ctrl_z, name="verif-suspend")
+                timer.start()
+            try:
+                with harness.alarm(20):
+                    self.ex.exec(src + "\n", glbs=self.ctx, locs=self.ctx, mode="exec", filename="<c20>")
+                return "ok"
+            except harness.CaseTimeout:
+                return "HANG"
+            except BaseException as e:  # noqa
+                return type(e).__name__ + ":" + str(e)[:80]
+            finally:
+                if timer is not None:
+                    timer.join()
+
+        def table():
+            return {n: list(j.get("pids") or []) for n, j in J.get_jobs().items()}, list(J.get_tasks())
+
+        def fail(mech, **kw):
+            rec.violation(mech, dict(case, steps=list(trace)), dict(kw, model={n: (v["pids"], "dead" if v["dead"] else "live") for n, v in m.items()}, model_mru=list(mru), table=table()))
+
+        try:
+            for step in case["steps"]:
+                op, arg = step
+                trace.append(step)
+                rec.count("real_steps")
+                size = len(mru)
+                if op in ("bg-start", "bg-pipeline"):
+                    before = table()[0]
+                    out = run("sleep 30 &" if op == "bg-start" else "sleep 30 | catrc 0 &")
+                    purge()
+                    jobs_now, tasks_now = table()
+                    new = sorted(n for n in jobs_now if before.get(n) != jobs_now[n])
+                    if out != "ok" or len(new) != 1:
+                        return fail("REAL/background-pipeline-not-registered-exactly-once", outcome=out, new=new)
+                    n = free()
+                    if new != [n]:
+                        return fail("NUMBERING/new-job-not-lowest-free-number", got=new, expected=n)
+                    m[n] = {"pids": jobs_now[n], "dead": False, "bg": True, "stopped": False}
+                    mru.insert(0, n)
+                    rec.count("real_background_jobs_started")
+                    if any(self._pstate(p) in (None, "Z") for p in jobs_now[n]):
+                        return fail("REAL/registered-job-has-no-live-process")
+                elif op == "suspend-start":
+                    before = table()[0]
+                    out = run("sleep 30", ctrl_z=True)
+                    purge()
+                    jobs_now, tasks_now = table()
+                    new = sorted(n for n in jobs_now if before.get(n) != jobs_now[n])
+                    stopped = [n for n in new if all(self._pstate(p) == "T" for p in jobs_now[n])]
+                    if out == "HANG":
+                        for n in new:
+                            for p_ in jobs_now[n]:
+                                try:
+                                    os.kill(p_, signal.SIGKILL)
+                                except OSError:
+                                    pass
+                        return fail("REAL/ctrl-z-command-never-returned")
+                    if len(new) != 1 or not stopped:
+                        rec.count("real_suspend_not_effective")
+                        # cannot be modelled further (the job ended some other way): stop this history here
+                        return
+                    n = free()
+                    if new != [n]:
+                        return fail("NUMBERING/new-job-not-lowest-free-number", got=new, expected=n)
+                    m[n] = {"pids": jobs_now[n], "dead": False, "bg": False, "stopped": True}
+                    mru.insert(0, n)
+                    rec.count("real_jobs_suspended_by_ctrl_z")
+                    if os.tcgetpgrp(2) != os.getpgrp():
+                        return fail("REAL/terminal-not-returned-after-ctrl-z")
+                elif op == "fgcmd":
+                    out = run("exitn 0 x")
+                    if out != "ok":
+                        return fail("REAL/foreground-command-failed", outcome=out)
+                    # registered under the lowest free number, finished, purged by the wait loop or by the next purge
+                    purge()
+                    live_nums = {n for n, j in J.get_jobs().items() if j["obj"].poll() is None}
+                    if live_nums != set(m):
+                        return fail("REAL/live-jobs-differ-after-foreground-command", live=sorted(live_nums))
+                    J._clear_dead_jobs()
+                elif op == "kill":
+                    live = [n for n in mru if not m[n]["dead"]]
+                    if not live:
+                        continue
+                    n = live[arg % len(live)]
+                    for p in m[n]["pids"]:
+                        try:
+                            os.kill(p, signal.SIGKILL)
+                        except OSError:
+                            pass
+                    end = time.time() + 3
+                    while time.time() < end and any(self._pstate(p) not in (None, "Z") for p in m[n]["pids"]):
+                        time.sleep(0.01)
+                    m[n]["dead"] = True
+                    continue  # nothing purges here
+                elif op in ("jobs", "jobs-posix", "jobs-captured"):
+                    if op == "jobs-captured":
+                        self.ctx.pop("_o", None)
+                        out = run("_o = $(jobs --posix)")
+                        text = self.ctx.get("_o") or ""
+                        if out != "ok":
+                            known = ("RuntimeError", "ValueError", "KeyError", "IndexError")
+                            return fail("RACE/unsynchronised-job-table/exception-on-main" if out.startswith(known) else "REAL/jobs-in-capture-failed", outcome=out)
+                    else:
+                        buf = io.StringIO()
+                        J.jobs(["--posix"] if op == "jobs-posix" else [], stdout=buf)
+                        text = buf.getvalue()
+                    purge()
+                    lines = text.splitlines()
+                    if op == "jobs":
+                        got = [int(x.group(1)) for x in (re.match(r"\{'num': (\d+),", l) for l in lines) if x]
+                    else:
+                        got = [int(x.group(1)) for x in (re.match(r"\[(\d+)\](.) ", l) for l in lines) if x]
+                    if got != mru or len(lines) != len(mru):
+                        return fail("JOBS-OUTPUT/listing-differs-from-live-jobs-in-mru-order", got=got, lines=lines[:6])
+                elif op == "bg":
+                    purge_first = True
+                    before_tbl = table()
+                    r = J.bg(list(arg))
+                    purge()
+                    err = isinstance(r, tuple) and bool(r[1])
+                    if not mru:
+                        sel, experr = None, True
+                    elif not arg or arg == ["+"]:
+                        sel, experr = mru[0], False
+                    elif arg == ["-"]:
+                        experr = len(mru) < 2
+                        sel = None if experr else mru[1]
+                    else:
+                        k = int(arg[0])
+                        experr = k not in m
+                        sel = None if experr else k
+                    if err:
+                        rec.count("error_returns")
+                    if err != experr:
+                        return fail("SELECT/bg-" + ("reports-error-for-valid-selection" if err else "accepts-invalid-selection"), arg=arg, returned=r)
+                    if not err:
+                        mru.remove(sel)
+                        mru.insert(0, sel)
+                        m[sel]["bg"], m[sel]["stopped"] = True, False
+                        time.sleep(0.05)
+                        if any(self._pstate(p) == "T" for p in m[sel]["pids"]):
+                            return fail("REAL/bg-left-the-job-stopped", selected=sel)
+                        rec.count("real_bg_resumed")
+                elif op == "disown":
+                    live = [n for n in mru]
+                    k = live[arg % len(live)] if live and arg >= 0 else 99
+                    was_dead = k in m and m[k]["dead"]
+                    r = J.disown([str(k)])
+                    err = isinstance(r, tuple) and bool(r[1])
+                    if err:
+                        rec.count("error_returns")
+                    if k in m and not was_dead:
+                        if err:
+                            return fail("SELECT/disown-reports-error-for-valid-job", arg=k, returned=r)
+                        strays.extend(m[k]["pids"])
+                        mru.remove(k)
+                        del m[k]
+                        rec.count("real_disowned")
+                    elif k not in m and not err:
+                        return fail("SELECT/disown-accepts-invalid-job", arg=k, returned=r)
+                    elif was_dead and not err:
+                        mru.remove(k)
+                        del m[k]
+                    purge_model_only = [n for n in mru if m[n]["dead"]]
+                    # disown purges nothing by itself; resync on dead jobs the table may or may not have dropped
+                    jobs_now, _ = table()
+                    for n in purge_model_only:
+                        if n not in jobs_now:
+                            mru.remove(n)
+                            del m[n]
+                rec.case(nontrivial=("real", op, str(arg), size) if size >= 2 else None)
+                # structure + model after every step
+                jobs_now, tasks_now = table()
+                if len(set(tasks_now)) != len(tasks_now) or sorted(tasks_now) != sorted(jobs_now):
+                    return fail("STRUCT/mru-deque-and-job-dict-disagree", where=op)
+                exp = [n for n in mru]
+                live_only = [n for n in tasks_now if n in m]
+                if op in ("bg-start", "bg-pipeline", "suspend-start", "jobs", "jobs-posix", "jobs-captured", "bg"):
+                    if tasks_now != exp:
+                        return fail(f"TABLE-DIFFERS-FROM-MODEL/{op}", where=op)
+                elif live_only != exp or any(n not in m and J.get_jobs()[n]["obj"].poll() is None for n in tasks_now):
+                    return fail(f"TABLE-DIFFERS-FROM-MODEL/{op}", where=op)
+            rec.count("real_histories_ok")
+        finally:
+            for n, v in m.items():
+                strays.extend(v["pids"])
+            for p in strays:
+                try:
+                    os.kill(p, signal.SIGKILL)
+                except (OSError, TypeError):
+                    pass
+
     def run_shard(self, sh, rec):
+        if sh["kind"] == "real":
+            rng = random.Random(f"{sh['seed']}/C20/real/{sh['index']}")
+            cases = []
+            for h in range(sh["n"]):
+                steps = []
+                for _ in range(sh["steps"]):
+                    r = rng.random()
+                    if r < 0.22:
+                        steps.append([rng.choice(["bg-start", "bg-start", "bg-pipeline"]), None])
+                    elif r < 0.30:
+                        steps.append(["suspend-start", None])
+                    elif r < 0.38:
+                        steps.append(["fgcmd", None])
+                    elif r < 0.56:
+                        steps.append(["kill", rng.randrange(100)])
+                    elif r < 0.74:
+                        steps.append([rng.choice(["jobs", "jobs-posix", "jobs-posix", "jobs-captured"]), None])
+                    elif r < 0.88:
+                        steps.append(["bg", rng.choice([[], ["+"], ["-"], ["1"], ["2"], ["3"], ["5"]])])
+                    else:
+                        steps.append(["disown", rng.choice([0, 1, 2, 3, -1])])
+                cases.append({"kind": "real", "steps": steps})
+            return self.run_real_in_pty(cases, rec, sh.get("timeout", 420) - 30)
         self._setup()
         rng = random.Random(f"{sh['seed']}/C20/{sh['index']}")
         if sh["kind"] == "conc":
